@@ -31,16 +31,23 @@ pub fn install_panic_hook() {
         } else {
             "<non-string panic payload>".to_string()
         };
+        // Where did it panic? Library sources are compiled from an absolute path (<repo>/src/...),
+        // the harness's own sources from a relative one (gsim/src/...), std and dependencies
+        // from /rustc/... or the cargo registry.
         let loc = info
             .location()
             .map(|l| {
                 let f = l.file();
-                // library sources are reported relative to the repository root
-                let f = match f.find("/src/") {
-                    Some(i) if !f.contains("/gsim/") && !f.starts_with("/rustc") && !f.contains("/.cargo/") => &f[i + 1..],
-                    _ => f,
-                };
-                format!("{}:{}", f, l.line())
+                let lib = f.starts_with('/') && !f.starts_with("/rustc") && !f.contains("/.cargo/") && !f.contains("/gsim/");
+                match (lib, f.find("/src/")) {
+                    (true, Some(i)) => format!("{}:{}", &f[i + 1..], l.line()),
+                    // the adapter file only contains thin calls into the library: a panic located
+                    // there is a #[track_caller] attribution (e.g. `g[k]` -> Index::index) of a
+                    // panic raised by library code
+                    _ if f.ends_with("gsim/src/flavour.rs") => format!("src/ (reported at the call site, adapter line {})", l.line()),
+                    _ if !f.starts_with('/') => format!("harness:{}:{}", f, l.line()),
+                    _ => format!("{}:{}", f, l.line()),
+                }
             })
             .unwrap_or_default();
         let text = format!("{msg} @ {loc}");
@@ -74,6 +81,11 @@ pub fn caught<T>(f: impl FnOnce() -> T) -> Caught<T> {
                 let m = LAST_PANIC
                     .with(|l| l.borrow_mut().take())
                     .unwrap_or_else(|| "<panic>".to_string());
+                if m.contains("@ harness:") {
+                    // the harness itself is broken: never a verdict about the library
+                    eprintln!("HARNESS-ERROR: the harness panicked: {m}");
+                    std::process::exit(2);
+                }
                 Caught::Panic(m)
             }
         }
@@ -188,11 +200,24 @@ impl LockObserver for Solo {
             resume_unwind(Box::new(SimAbort(m)));
         }
     }
-    fn acquired(&self, lock: usize, mode: Mode, model_ok: bool) {
-        let mut s = self.st.borrow_mut();
-        if !model_ok {
-            s.harness_error = Some("real lock disagreed with the single-task lock model".into());
+    fn try_failed(&self, _lock: usize, _mode: Mode) {
+        let over = {
+            let mut s = self.st.borrow_mut();
+            s.used += 1;
+            s.used > s.budget
+        };
+        if over {
+            // one task spinning on a lock nobody will ever release
+            resume_unwind(Box::new(SimAbort("step budget exceeded (no progress)".into())));
         }
+    }
+    fn acquired(&self, lock: usize, mode: Mode, model_ok: bool) {
+        if !model_ok {
+            // never block on a lock the model believes free: that is a harness error, not a hang
+            self.st.borrow_mut().harness_error = Some("real lock disagreed with the single-task lock model".into());
+            resume_unwind(Box::new(SimAbort("harness: lock model disagreement".into())));
+        }
+        let mut s = self.st.borrow_mut();
         let e = s.held.entry(lock).or_insert((0, false));
         match mode {
             Mode::Read => e.0 += 1,
@@ -272,6 +297,8 @@ pub struct SchedProbes {
     pub try_acquisitions: u64,
     #[serde(default)]
     pub preemptions_inside_critical_section: u64,
+    #[serde(default)]
+    pub failed_try_acquisitions: u64,
 }
 
 #[derive(Clone, Debug, Serialize, Deserialize, PartialEq)]
@@ -756,6 +783,41 @@ impl Sched {
             "real lock not available when the model granted {}({n}) to t{tid}",
             mode_str(mode)
         ));
+        if st.aborted.is_none() {
+            st.aborted = Some((AbortKind::ReplayMismatch, "harness error".into()));
+        }
+        self.end(&mut st);
+    }
+
+    /// A non-blocking acquisition found the lock busy: the caller may be spinning, so the other
+    /// tasks get a chance to run; counted against the step budget.
+    fn yield_point(&self, tid: usize) {
+        let mut st = self.m.lock().unwrap();
+        if st.aborted.is_some() {
+            drop(st);
+            resume_unwind(Box::new(SimAbort("run aborted".into())));
+        }
+        st.points[tid] += 1;
+        if st.points[tid] > st.budget {
+            st.aborted = Some((
+                AbortKind::Budget,
+                format!("t{tid} exceeded {} lock points without finishing", st.budget),
+            ));
+        }
+        st.probes.failed_try_acquisitions += 1;
+        st.status[tid] = Status::Yield;
+        st.running = None;
+        self.schedule(&mut st);
+        loop {
+            if st.running == Some(tid) {
+                return;
+            }
+            if st.aborted.is_some() {
+                drop(st);
+                resume_unwind(Box::new(SimAbort("aborted".into())));
+            }
+            st = self.cvs[tid].wait(st).unwrap();
+        }
     }
 }
 
@@ -796,9 +858,14 @@ impl LockObserver for TaskObs {
     }
     fn acquired(&self, lock: usize, mode: Mode, model_ok: bool) {
         if !model_ok {
+            // never block on a lock the model believes free: harness error, the run is aborted
             self.sched.real_disagrees(self.tid, lock, mode);
+            resume_unwind(Box::new(SimAbort("harness: lock model disagreement".into())));
         }
         self.sched.acquired(self.tid, lock, mode);
+    }
+    fn try_failed(&self, _lock: usize, _mode: Mode) {
+        self.sched.yield_point(self.tid);
     }
     fn after_release(&self, lock: usize, mode: Mode) {
         self.sched.released(self.tid, lock, mode);
